@@ -553,11 +553,29 @@ def shaky_observables(world, obj, base, probes):
         with world.step(9, 9, use_fs=False):
             m1 = observe.snapshot(history.fresh(obj, tracked), probes)
             m2 = observe.snapshot(history.jittered(obj, tracked), probes)
-        return {k for k, _w in observe.diff_unchanged(m1, m2, nbase=probes["n_base"])}
+        out = {k for k, _w in observe.diff_unchanged(m1, m2, nbase=probes["n_base"])}
     except Exception as e:  # noqa: BLE001 - no model, no excuse
         if type(e).__name__ == "HarnessTimeout":
             raise
-        return set()
+        out = set()
+    # ... and exactly the perturbation the property allows: a copy of the object itself moved
+    # away and back through the public centroid setter, against an unmoved copy
+    try:
+        with world.step(9, 9, use_fs=False):
+            a = copy.deepcopy(obj)
+            b = copy.deepcopy(obj)
+            with warnings.catch_warnings():
+                warnings.simplefilter("ignore")
+                c = np.array(b.centroid, dtype=float)
+                b.centroid = c + history.extent(obj) * np.array([1.0, -0.7, 0.4])[:len(c)]
+                b.centroid = c
+            sa = observe.snapshot(a, probes)
+            sb = observe.snapshot(b, probes)
+        out |= {k for k, _w in observe.diff_unchanged(sa, sb, nbase=probes["n_base"])}
+    except Exception as e:  # noqa: BLE001
+        if type(e).__name__ == "HarnessTimeout":
+            raise
+    return out
 
 
 def _excused(world, obj, base, probes, st, why):
@@ -576,13 +594,17 @@ def _excused(world, obj, base, probes, st, why):
     return bool(names & (shaky | inner))
 
 
-def _canon_seeded(world, value):
-    """Canonical form of a returned value.  A returned *shape* is canonicalised by reading
+def _canon_seeded(world, value, name=None):
+    """Canonical form of a returned value (dihedral angles through their cosines, as in the
+    snapshots: arccos at +-1 turns an ulp into 1e-8).  A returned *shape* is canonicalised by reading
     its properties, some of which call the solver: both sides of a comparison are read
     under the same RNG seeds (and from a deep copy, so that reading cannot perturb the
     object under test)."""
     with world.step(12, 12, use_fs=False):
-        return observe.canon(copy.deepcopy(value))
+        out = observe.canon(copy.deepcopy(value))
+    if name == "get_dihedral" and isinstance(out, float):
+        out = float(np.cos(out))
+    return out
 
 
 def observe_clone(world, obj, probes):
@@ -749,10 +771,61 @@ def execute(spec, world):
         if res["violations"]:
             break
 
+        # 4. repeating the query (different RNG seed) returns the same answer
+        #    (done before the observables are read: the repeat is part of this step)
+        if outcome == "ok" and st.get("repeat") and st["op"] != "io" and st["name"] not in (
+                "save", "plot", "to_plato_scene"):
+            try:
+                fn2, _ = build_call(obj, st)
+                with world.step(st["pyseed"] ^ 0xBEEF, st["npseed"] ^ 0xFACE, use_fs=False):
+                    with warnings.catch_warnings():
+                        warnings.simplefilter("ignore")
+                        value2 = fn2()
+                skip_r = _solver_skip(world)
+                # solver-based = the solver seam saw a call (also through deprecated aliases
+                # such as bounding_sphere, or to_json([... "minimal_bounding_sphere" ...]))
+                solverish = used_solver or len(world.solver.attempts) > 0
+                if not (solverish and (skip_q or skip_r)):
+                    ctx = observe.Ctx(L, 1e-6 if solverish else 1e-9, 1e-12)
+                    ctx.nbase = 0
+                    # canonical forms are taken from deep copies: reading a returned live
+                    # inner shape must not itself perturb the object under test
+                    why = observe._cmp_value(st["name"], _canon_seeded(world, value, st["name"]),
+                                             _canon_seeded(world, value2, st["name"]), ctx)
+                    if why and _excused(world, obj, base, probes, st, why):
+                        C["ill_conditioned_skips"] += 1
+                        why = None
+                    if why:
+                        res["violations"].append(violation(
+                            PROP, "repeat-differs", "%s returned a different answer when "
+                            "repeated: %s" % (qname, why), si, cls=cls, op=qname))
+                        break
+                C["repeats_compared"] += 1
+            except Exception as e:  # noqa: BLE001
+                if isinstance(e, RuntimeError) and "nable to solve" in str(e):
+                    C["repeat_no_answer"] += 1
+                elif type(e).__name__ == "HarnessTimeout":
+                    raise
+                else:
+                    res["violations"].append(violation(
+                        PROP, "repeat-differs", "%s returned a value, its repeat raised %s" % (
+                            qname, type(e).__name__), si, cls=cls, op=qname,
+                        exc=type(e).__name__))
+                    break
+            bad = _registry_check(registry, tol_geo, si)
+            if bad:
+                k, opn, path, why = bad
+                res["violations"].append(violation(
+                    PROP, "handed-out-array-altered", "repeating %s altered the array returned "
+                    "earlier by %s (step %d, %s): %s" % (qname, opn, k, path or "value", why),
+                    si, cls=cls, op=qname, earlier=opn))
+                break
+
         # 1. observables unchanged since the start (read from a deep copy)
         snap1, skip1 = observe_clone(world, obj, probes)
         d = observe.diff_unchanged(snap_prev, snap1, nbase=probes["n_base"],
-                                   skip=skip_prev | skip1 | skip_q)
+                                   skip=skip_prev | skip1 | skip_q,
+                                   ops=2 if st.get("repeat") else 1)
         ref_snap = snap_prev
         if not d:
             # drift since the start: one allowance of last-digit rounding per operation
@@ -794,55 +867,6 @@ def execute(spec, world):
                 cls=cls, op=qname, obs=strict[0][0], what="exact"))
             break
 
-        # 4. repeating the query (different RNG seed) returns the same answer
-        if outcome == "ok" and st.get("repeat") and st["op"] != "io" and st["name"] not in (
-                "save", "plot", "to_plato_scene"):
-            try:
-                fn2, _ = build_call(obj, st)
-                with world.step(st["pyseed"] ^ 0xBEEF, st["npseed"] ^ 0xFACE, use_fs=False):
-                    with warnings.catch_warnings():
-                        warnings.simplefilter("ignore")
-                        value2 = fn2()
-                skip_r = _solver_skip(world)
-                # solver-based = the solver seam saw a call (also through deprecated aliases
-                # such as bounding_sphere, or to_json([... "minimal_bounding_sphere" ...]))
-                solverish = used_solver or len(world.solver.attempts) > 0
-                if not (solverish and (skip_q or skip_r)):
-                    ctx = observe.Ctx(L, 1e-6 if solverish else 1e-9, 1e-12)
-                    ctx.nbase = 0
-                    # canonical forms are taken from deep copies: reading a returned live
-                    # inner shape must not itself perturb the object under test
-                    why = observe._cmp_value(st["name"], _canon_seeded(world, value),
-                                             _canon_seeded(world, value2), ctx)
-                    if why and _excused(world, obj, base, probes, st, why):
-                        C["ill_conditioned_skips"] += 1
-                        why = None
-                    if why:
-                        res["violations"].append(violation(
-                            PROP, "repeat-differs", "%s returned a different answer when "
-                            "repeated: %s" % (qname, why), si, cls=cls, op=qname))
-                        break
-                C["repeats_compared"] += 1
-            except Exception as e:  # noqa: BLE001
-                if isinstance(e, RuntimeError) and "nable to solve" in str(e):
-                    C["repeat_no_answer"] += 1
-                elif type(e).__name__ == "HarnessTimeout":
-                    raise
-                else:
-                    res["violations"].append(violation(
-                        PROP, "repeat-differs", "%s returned a value, its repeat raised %s" % (
-                            qname, type(e).__name__), si, cls=cls, op=qname,
-                        exc=type(e).__name__))
-                    break
-            bad = _registry_check(registry, tol_geo, si)
-            if bad:
-                k, opn, path, why = bad
-                res["violations"].append(violation(
-                    PROP, "handed-out-array-altered", "repeating %s altered the array returned "
-                    "earlier by %s (step %d, %s): %s" % (qname, opn, k, path or "value", why),
-                    si, cls=cls, op=qname, earlier=opn))
-                break
-
         # 5. the answer does not depend on the query history: a never-queried copy of the
         #    shape (same state, same arguments, same seeds) gives the same answer
         # (texts such as repr print every digit: they are compared only while no earlier
@@ -865,8 +889,8 @@ def execute(spec, world):
                 if not (solverish and (skip_q or skip_h)):
                     ctx = observe.Ctx(L, 1e-6 if solverish else 1e-9, 1e-12)
                     ctx.nbase = 0
-                    why = observe._cmp_value(st["name"], _canon_seeded(world, value),
-                                             _canon_seeded(world, value3), ctx)
+                    why = observe._cmp_value(st["name"], _canon_seeded(world, value, st["name"]),
+                                             _canon_seeded(world, value3, st["name"]), ctx)
                     if why and _excused(world, obj, base, probes, st, why):
                         C["ill_conditioned_skips"] += 1
                         why = None
